@@ -271,6 +271,13 @@ pub(crate) async fn allocate_link(
         .map_err(|_| AllocLinkError::SessionStopped(reason()))?
 }
 
+/// An outgoing frame that is held back until the remote-incoming-window reopens
+#[derive(Debug)]
+pub(crate) enum BufferedOutgoingFrame {
+    Transfer(InputHandle, Transfer, Payload),
+    Detach(Detach),
+}
+
 /// AMQP1.0 Session
 ///
 /// # Begin a new Session with default configuration
@@ -335,8 +342,9 @@ pub struct Session {
     // keeps the peer's send window sliding even when no link-level flow is generated.
     pub(crate) need_flow_count: u32,
     pub(crate) remote_incoming_window: SequenceNo,
-    // Outgoing transfers that are blocked by the remote-incoming-window
-    pub(crate) remote_incoming_window_exhausted_buffer: VecDeque<(InputHandle, Transfer, Payload)>,
+    // Outgoing transfers that are blocked by the remote-incoming-window, and the
+    // detaches that were issued after them and must not overtake them
+    pub(crate) remote_incoming_window_exhausted_buffer: VecDeque<BufferedOutgoingFrame>,
 
     // The remote-outgoing-window reflects the maximum number of incoming transfers that MAY
     // arrive without exceeding the remote endpoint’s outgoing-window. This value MUST be
@@ -450,6 +458,14 @@ impl Session {
         Ok(frame)
     }
 
+    fn on_outgoing_detach_inner(&mut self, detach: Detach) -> SessionFrame {
+        use endpoint::Session as _;
+
+        self.deallocate_link(detach.handle.clone().into());
+        let body = SessionFrameBody::Detach(detach);
+        SessionFrame::new(self.outgoing_channel, body)
+    }
+
     /// Build a session-only flow that re-advertises the session window. It carries no link
     /// state (`handle` and the link fields are unset), so it only updates the peer's view of
     /// our session window via the advanced `next-incoming-id`.
@@ -529,15 +545,23 @@ impl Session {
         &mut self,
         mut output_frame_buffer: Vec<SessionFrame>,
     ) -> Result<Vec<SessionFrame>, SessionInnerError> {
-        // Drain the buffered transfers as much as possible
-        while self.remote_incoming_window > 0 {
-            if let Some((input_handle, transfer, payload)) =
-                self.remote_incoming_window_exhausted_buffer.pop_front()
-            {
-                let frame = self.on_outgoing_transfer_inner(input_handle, transfer, payload)?;
-                output_frame_buffer.push(frame);
-            } else {
-                break;
+        // Drain the buffered frames as much as possible. A detach does not consume
+        // the remote-incoming-window
+        loop {
+            match self.remote_incoming_window_exhausted_buffer.front() {
+                Some(BufferedOutgoingFrame::Detach(_)) => {}
+                Some(BufferedOutgoingFrame::Transfer(..)) if self.remote_incoming_window > 0 => {}
+                _ => break,
+            }
+            match self.remote_incoming_window_exhausted_buffer.pop_front() {
+                Some(BufferedOutgoingFrame::Transfer(input_handle, transfer, payload)) => {
+                    let frame = self.on_outgoing_transfer_inner(input_handle, transfer, payload)?;
+                    output_frame_buffer.push(frame);
+                }
+                Some(BufferedOutgoingFrame::Detach(detach)) => {
+                    output_frame_buffer.push(self.on_outgoing_detach_inner(detach));
+                }
+                None => break,
             }
         }
         Ok(output_frame_buffer)
@@ -562,11 +586,12 @@ impl Session {
                 self.on_outgoing_transfer_inner(cur_input_handle, cur_transfer, cur_payload)?;
             frames.push(frame);
         } else {
-            self.remote_incoming_window_exhausted_buffer.push_back((
-                cur_input_handle,
-                cur_transfer,
-                cur_payload,
-            ));
+            self.remote_incoming_window_exhausted_buffer
+                .push_back(BufferedOutgoingFrame::Transfer(
+                    cur_input_handle,
+                    cur_transfer,
+                    cur_payload,
+                ));
         }
         Ok(frames)
     }
@@ -1061,11 +1086,12 @@ impl endpoint::Session for Session {
         // Check if remote-incoming-window is exhausted
         if self.remote_incoming_window == 0 {
             // exhausted
-            self.remote_incoming_window_exhausted_buffer.push_back((
-                input_handle,
-                transfer,
-                payload,
-            ));
+            self.remote_incoming_window_exhausted_buffer
+                .push_back(BufferedOutgoingFrame::Transfer(
+                    input_handle,
+                    transfer,
+                    payload,
+                ));
             Ok(None)
         } else if self.remote_incoming_window_exhausted_buffer.is_empty() {
             // no buffered transfer
@@ -1116,10 +1142,16 @@ impl endpoint::Session for Session {
         Ok(frame)
     }
 
-    fn on_outgoing_detach(&mut self, detach: Detach) -> SessionFrame {
-        self.deallocate_link(detach.handle.clone().into());
-        let body = SessionFrameBody::Detach(detach);
-        SessionFrame::new(self.outgoing_channel, body)
+    fn on_outgoing_detach(&mut self, detach: Detach) -> Option<SessionFrame> {
+        if self.remote_incoming_window_exhausted_buffer.is_empty() {
+            Some(self.on_outgoing_detach_inner(detach))
+        } else {
+            // Transfers that were handed to the session before this detach are still
+            // waiting for the remote-incoming-window; the detach must follow them
+            self.remote_incoming_window_exhausted_buffer
+                .push_back(BufferedOutgoingFrame::Detach(detach));
+            None
+        }
     }
 }
 
